@@ -11,10 +11,12 @@ def run(ctx):
     T = ctx.thorough
     ctx.rule = ("M1: Backup.tla (C05_StoreLoads: a store that returns success without faults loads exactly, for every interleaving of buffered writes, "
                 "flushes and shard order) and NitroMVCC.tla (the backup's scan is the visitor: C10_VisitPartition over all pivot choices, C01) are "
-                "exhausted by TLC; M2a: seeded sequential histories (multi-version, several open snapshots) in which StoreToDisk of the latest or an "
+                "exhausted by TLC, and NitroDelta.tla (delta interleaving: workers switched to delta writing, the snapshot's handle closed, the scan "
+                "of the unprotected store interleaved with writers, snapshot churn and collection workers: ScanPlusDeltaIsView, RestoreExact); M2a: seeded sequential histories (multi-version, several open snapshots) in which StoreToDisk of the latest or an "
                 "older snapshot runs with mutations, snapshot churn and garbage-list unlinking performed INSIDE its item callback (i.e. while the "
                 "scan is in progress), delta interleaving on/off, store/load concurrency 1/2/8; LoadFromDisk into a fresh instance; TLC "
-                "(Trace_NitroMVCC.tla) requires the restored items/Count to equal the stored snapshot's view, then continues validating the workload "
+                "(Trace_NitroMVCC.tla) decodes the shard and delta files of every backup (strictly ascending items of the stored view, every missing one in "
+                "the delta files, nothing foreign) and requires the restored items/Count to equal the stored snapshot's view, then continues validating the workload "
                 "on the restored instance (C01/C02/C06/C09/C10 checks apply to it); M2b: free-running writers, readers and GC while a backup runs; "
                 "the restored content is judged against the snapshot's content by SetLin.tla")
     backup.model_check(ctx, 2, [2, 1], 1)
@@ -22,6 +24,22 @@ def run(ctx):
     r, _ = mvcc.model_check(ctx, "c05_visit", mvcc.mc_cfg([1, 2], [1], ["w1"], 3, 1, [], [], 2, gcinv), dump=False)
     if not r.ok:
         raise Infra("NitroMVCC instance violates " + str(r.violated))
+    # delta interleaving: the scan of the closed snapshot plus the workers' delta writes is the view, for every interleaving
+    nd = [("MC_ND_1w.cfg", '{w1}', 3, 1)] + ([("MC_ND_2w.cfg", '{w1, w2}', 3, 1), ("MC_ND_4sn.cfg", '{w1}', 4, 1)] if T else [])
+    vlib.stage_specs(ctx.wd, [])
+    for name, wr, maxsn, maxref in nd:
+        open(os.path.join(ctx.wd, name), "w").write(
+            "SPECIFICATION DSpec\nCONSTANTS\n  Keys = {1, 2}\n  Vals = {1}\n  Writers = %s\n  MaxSn = %d\n  MaxRef = %d\n  MaxCnt = 2\n  Rates = {0}\n  Iters = {}\n"
+            "  MaxPivots = 0\n  FIXD1 = TRUE\n  FIXD2 = TRUE\n  DELTAFIRST = TRUE\n"
+            "INVARIANT ScanPlusDeltaIsView\nINVARIANT ScanAscending\nINVARIANT ScanOnlyView\nINVARIANT RestoreExact\nCHECK_DEADLOCK FALSE\n" % (wr, maxsn, maxref))
+        r = vlib.run_tlc("NitroDelta.tla", name, ctx.wd, timeout=3000)
+        ctx.states += r.distinct
+        ctx.transitions += r.generated
+        ctx.mc_runs.append({"spec": "NitroDelta.tla", "cfg": name, "distinct_states": r.distinct, "states_generated": r.generated, "depth": r.depth,
+                            "wall_s": round(r.wall, 1), "result": r.violated or "no error"})
+        log("[M1] NitroDelta/%s: %d distinct states, depth %d, %.0fs: %s" % (name, r.distinct, r.depth, r.wall, r.violated or "all invariants hold"))
+        if not r.ok:
+            raise Infra("NitroDelta.tla violates %s in %s: model error (the real backup is judged by traces)" % (r.violated, name))
     tot = 2000 if T else 160
     per = 80
     first = None
